@@ -24,6 +24,8 @@ type Clause struct {
 type LoopSpec struct {
 	Invariants []*Clause
 	Decreases  *Clause
+	Monotone   []*Clause // boolean expressions that, once true at the loop head, stay true at every later visit
+	Steps      []*Clause // two-state conditions on one iteration: prev(e) is e at the loop head
 }
 
 // ModEntry: one entry of a modifies clause.
@@ -528,6 +530,10 @@ func (sp *Specs) directive(line, where string, cur **Contract) error {
 				ls.Invariants = append(ls.Invariants, cl)
 			case "decreases":
 				ls.Decreases = cl
+			case "monotone":
+				ls.Monotone = append(ls.Monotone, cl)
+			case "step":
+				ls.Steps = append(ls.Steps, cl)
 			default:
 				return fmt.Errorf("%s: loop clause %q", where, f[1])
 			}
